@@ -232,6 +232,29 @@ class Translator:
         self.done[key] = (cname, 'S', 'CurveDist')
         return self.done[key]
 
+    def cdf_D(self, n1, n2):
+        """the table D(r,k), r in 0..2n, k in 0..max(2m,2n) (minDist also reads D(i, 2n)), as a list of rows"""
+        key = ('CDF', 'D', (n1, n2))
+        if key in self.done: return self.done[key]
+        fd2 = find_cdf_method('D')
+        fx = FunTx(self, 'utils/curvedistance.py', None, fd2)
+        t1, t2 = SEGTY[n1], SEGTY[n2]
+        env = {'self': Val('CDF', items=[Val(t1, 'v_bez1'), Val(t2, 'v_bez2')])}
+        n, m = n1 - 1, n2 - 1
+        rows = []
+        for r in range(0, 2 * n + 1):
+            row = []
+            for k in range(0, max(2 * m, 2 * n) + 1):
+                call = ast.parse(f'self.D({r}, {k})', mode='eval').body
+                fx.counter += 1000
+                row.append(self.S(fx.expr(call, env)))
+            rows.append('[' + ';\n    '.join(row) + ']')
+        cname = f'curvedistance_D_{n1}_{n2}'
+        self.out['CurveDist'].append(f'(* utils/curvedistance.py: MinimumCurveDistanceFinder.D as a table, orders {n1} x {n2} *)\n'
+                                     f'Definition {cname} {{T : Type}} (O : Ops T) (v_bez1 : {coqty(t1)}) (v_bez2 : {coqty(t2)}) : list (list T) :=\n  [' + ';\n   '.join(rows) + '].\n')
+        self.done[key] = (cname, ('L', ('L', 'S')), 'CurveDist')
+        return self.done[key]
+
     def function(self, cls, name, consts=()):
         """translate method `name` for receiver class `cls` (or module function when cls startswith 'mod:')"""
         key = (cls, name, consts)
@@ -1342,7 +1365,7 @@ TARGETS += [('QuadraticBezier', 'derivative'), ('CubicBezier', 'derivative'),
             ('Line', '_bothPointsAreOnSameSideOfOrigin'), ('Line', '_line_line_intersections'),
             ('QuadraticBezier', '_curve_line_intersections_t'), ('CubicBezier', '_curve_line_intersections_t'),
             ('QuadraticBezier', '_curve_line_intersections'), ('CubicBezier', '_curve_line_intersections'),
-            ] + [('CDF', 'S', (a, b)) for a in (2, 3, 4) for b in (2, 3, 4)]
+            ] + [('CDF', 'S', (a, b)) for a in (2, 3, 4) for b in (2, 3, 4)] + [('CDF', 'D', (a, b)) for a in (2, 3, 4) for b in (2, 3, 4)]
 
 
 def header(file, deps):
@@ -1360,7 +1383,8 @@ def generate(outdir, targets=None):
         cls, name = t[0], t[1]
         consts = t[2] if len(t) > 2 else ()
         try:
-            if cls == 'CDF': tr.cdf_S(*consts)
+            if cls == 'CDF' and name == 'S': tr.cdf_S(*consts)
+            elif cls == 'CDF' and name == 'D': tr.cdf_D(*consts)
             else: tr.function(cls, name, consts)
         except Untranslatable as e:
             errors.append({'function': f'{cls}.{name}', 'error': str(e)})
